@@ -426,6 +426,33 @@ func (c06) Exec(script interface{}, c *core.Ctx) {
 			c.Fail("header_roundtrip", "table_header_encoding", fmt.Sprintf("%x", enc), fmt.Sprintf("%x", wantEnc))
 			return
 		}
+		// an encoding the caller keeps is the caller's: twenty further headers are encoded, and
+		// the first one, and each of those, still reads what it read when it was returned
+		{
+			var kept [][]byte
+			var want [][]byte
+			okh := c.Call("TableHeader.Data (encodings kept by the caller)", func() {
+				for k := 0; k < 20; k++ {
+					h := psi.TableHeader{TableID: uint8(s.TH[0] + k), SectionSyntaxIndicator: k%2 == 0, PrivateIndicator: k%3 == 0, SectionLength: uint16((s.TH[3] + 37*k) & 0xfff)}
+					e := h.Data()
+					kept = append(kept, e)
+					want = append(want, append([]byte(nil), e...))
+				}
+			})
+			if !okh {
+				return
+			}
+			if !bytes.Equal(enc, wantEnc) {
+				c.Fail("header_roundtrip", "table_header_encoding_changed_by_later_encodings", fmt.Sprintf("%x", enc), fmt.Sprintf("%x", wantEnc))
+				return
+			}
+			for k := range kept {
+				if !bytes.Equal(kept[k], want[k]) {
+					c.Fail("header_roundtrip", "table_header_encoding_changed_by_later_encodings", fmt.Sprintf("%x", kept[k]), fmt.Sprintf("%x", want[k]))
+					return
+				}
+			}
+		}
 		var pf []byte
 		if !c.Call("psi.NewPointerField", func() { pf = psi.NewPointerField(ptr) }) {
 			return
